@@ -160,38 +160,64 @@ theorem filter_types_spec (types : List AType) :
       refine ⟨by intro h; simp [h] at hem, fun t ht hn hq => h1 t ht hn hq, ?_⟩
       intro hl; omega
 
-/-! ### the interleaving marker across occurrences (finding C13-sequence-from-first-occurrence) -/
+/-! ### the interleaving marker across occurrences -/
 
-/-- full strength: an attr that carries a sequence marker in some occurrence still carries one
-after the occurrences are merged -/
-def sequence_marker_kept : Prop :=
-  ∀ (classes : List (List Attr)) (R : List Attr), reduceAttributes classes = some R →
-    ∀ c ∈ classes, ∀ a ∈ c, a.seq.isSome = true → ∀ m ∈ R, m.same a = true → m.seq.isSome = true
+/-- **sequence_marker_kept** (full strength since `merge_attributes` keeps the restrictions path of
+whichever occurrence has one): an attr that carries a sequence marker in some occurrence still
+carries one after the occurrences are merged.  The hypothesis (no class lists an attr twice) holds
+for everything the mappers produce (`mapElement_nodup`, `mapDict_nodup`). -/
+theorem sequence_marker_kept (classes : List (List Attr)) (hn : ∀ c ∈ classes, NodupKeys c) :
+    ∃ R, reduceAttributes classes = some R ∧
+      ∀ c ∈ classes, ∀ a ∈ c, a.seq.isSome = true → ∀ m ∈ R, m.same a = true → m.seq.isSome = true := by
+  obtain ⟨R, hR, _⟩ := reduceAttributes_admits classes hn
+  refine ⟨R, hR, ?_⟩
+  intro c hc a ha hsq m hm hs
+  exact (reduceAttributes_wider classes hn R hR c hc a ha m hm hs).2.2 hsq
 
 /-- the two occurrences `a b` and `a b a b` of one element, as `ElementMapper` maps them
-(2 stands in for `sys.maxsize`) -/
+(2 stands in for `sys.maxsize`): the former witness of the lost marker -/
 def seqWitness : List (List Attr) :=
   let mk (n : String) (mx : Nat) (sq : Option Nat) : Attr :=
     { tag := .element, name := n.toList, ns := none, index := 0, types := [], min := 1, max := mx, seq := sq }
   [[mk "a" 1 none, mk "b" 1 none], [mk "a" 2 (some 1), mk "b" 2 (some 1)]]
 
-/-- it is false: the merged attrs take the restrictions of the first class that has them -/
-theorem sequence_marker_lost : ¬ sequence_marker_kept := by
+/-- on the former witness the merged attrs now carry the marker -/
+example : (∀ c ∈ seqWitness, NodupKeys c) ∧
+    (reduceAttributes seqWitness).map (fun R => R.map (·.seq)) = some [some 1, some 1] := by decide
+
+/-! #### what is still open (finding C13-sequence-numbers-positional) -/
+
+/-- full strength: the merged attr carries the marker of *every* occurrence that has one -/
+def sequence_marker_exact : Prop :=
+  ∀ (classes : List (List Attr)) (R : List Attr), (∀ c ∈ classes, NodupKeys c) →
+    reduceAttributes classes = some R →
+    ∀ c ∈ classes, ∀ a ∈ c, a.seq.isSome = true → ∀ m ∈ R, m.same a = true → m.seq = a.seq
+
+/-- the occurrences `x x b c b c` and `b c b c`: the block `b c` is number 2 in one, number 1 in the other -/
+def seqNumberWitness : List (List Attr) :=
+  let mk (n : String) (sq : Option Nat) : Attr :=
+    { tag := .element, name := n.toList, ns := none, index := 0, types := [], min := 1, max := 2, seq := sq }
+  [[mk "x" (some 1), mk "b" (some 2), mk "c" (some 2)], [mk "b" (some 1), mk "c" (some 1)]]
+
+/-- it is false: sequence numbers are positional per occurrence -/
+theorem sequence_marker_not_exact : ¬ sequence_marker_exact := by
   intro h
-  have hr : reduceAttributes seqWitness = some
-      [{ tag := .element, name := "a".toList, ns := none, index := 0, types := [], min := 1, max := 2, seq := none },
-       { tag := .element, name := "b".toList, ns := none, index := 0, types := [], min := 1, max := 2, seq := none }] := by
+  have hr : reduceAttributes seqNumberWitness = some
+      [{ tag := .element, name := "x".toList, ns := none, index := 0, types := [], min := 0, max := 2, seq := some 1 },
+       { tag := .element, name := "b".toList, ns := none, index := 0, types := [], min := 1, max := 2, seq := some 2 },
+       { tag := .element, name := "c".toList, ns := none, index := 0, types := [], min := 1, max := 2, seq := some 2 }] := by
     decide
-  have := h seqWitness _ hr
-    [{ tag := .element, name := "a".toList, ns := none, index := 0, types := [], min := 1, max := 2, seq := some 1 },
-     { tag := .element, name := "b".toList, ns := none, index := 0, types := [], min := 1, max := 2, seq := some 1 }]
-    (by decide) _ (List.mem_cons_self) rfl _ (List.mem_cons_self) (by decide)
+  have := h seqNumberWitness _ (by decide) hr (seqNumberWitness.getLast (by decide)) (by decide)
+    { tag := .element, name := "b".toList, ns := none, index := 0, types := [], min := 1, max := 2, seq := some 1 }
+    (by decide) rfl
+    { tag := .element, name := "b".toList, ns := none, index := 0, types := [], min := 1, max := 2, seq := some 2 }
+    (by decide) (by decide)
   revert this
   decide
 
 /-- the provable part: when all occurrences agree on the marker of every attr they share, the
 merged attr carries exactly that marker -/
-theorem sequence_marker_kept_partial (classes : List (List Attr)) (R : List Attr)
+theorem sequence_marker_exact_partial (classes : List (List Attr)) (R : List Attr)
     (hagree : ∀ c ∈ classes, ∀ a ∈ c, ∀ c' ∈ classes, ∀ a' ∈ c', a.same a' = true → a.seq = a'.seq)
     (h : reduceAttributes classes = some R) :
     ∀ m ∈ R, ∀ c ∈ classes, ∀ a ∈ c, m.same a = true → m.seq = a.seq := by
